@@ -85,7 +85,7 @@ CHECKS = {
                 text="Every key-table variant per hop (right key, two keys per SKI, wrong key, key under another AS only, no key, key withdrawn mid-validation) for 1-3 hops, every single-field corruption (target, pCount, flags, AS, SAFI, AFI, NLRI bit, NLRI length, SKI, signature value, signature DER framing) at every hop, and the argument errors; IPv4 and IPv6 NLRI of varying bit length; signatures made by the harness's own digest serialiser + ECDSA_sign. VALID is accepted only where the model says every hop verifies under a key of its AS and SKI; specific codes otherwise. One open known finding (keys are looked up by SKI only).",
                 note="OpenSSL libcrypto and the harness's own RFC 8205 serialiser are the trusted base for ECDSA, SHA-256 and the byte layout; TLA+ decides the decision structure only; seeded concretisations; ASan build"),
     "C12": dict(engine="bgpsec", cat="exploration", ref="5/C12",
-                technique="Bgpsec.tla GenExpected + hop-by-hop construction with rtr_bgpsec_generate_signature; every produced segment parsed as DER and verified by an independent RFC 8205 digest + ECDSA_verify; finished paths validated; BgpsecTrace.tla judges",
+                technique="Bgpsec.tla GenExpected + hop-by-hop construction with rtr_bgpsec_generate_signature; every produced segment parsed as DER and verified by an independent RFC 8205 digest + ECDSA_verify; finished paths validated; BgpsecTrace.tla judges; paths are assembled alternately with the append and the prepend helpers, which BgpsecSeg.tla models and BgpsecSegTrace.tla validates call by call (extra conformance)",
                 text="Originations and forwardings for paths of 1-4 hops over IPv4 NLRI lengths 0..32 and IPv6 lengths 0..128 (all lengths in the thorough tier), random pCount/flags/AS, fresh keys: each generated Signature Segment must be well-formed DER, verify under the public key against the harness's own serialisation of the RFC 8205 section 4.2 digest, and the finished path must validate as VALID; unloadable key, unsupported suite/AFI and wrong segment count must yield their codes.",
                 note="OpenSSL libcrypto and the harness's own RFC 8205 serialiser are the trusted base for ECDSA, SHA-256 and the byte layout; TLA+ decides the decision structure only; seeded concretisations; ASan build"),
 }
